@@ -50,9 +50,10 @@ Theorem C01_code_extractors : forall d0 d1 d2 d3, 0 <= d1 < 65536 ->
   /\ c_get_ta d0 d1 d2 d3 = get_ta d1 /\ c_get_ms d0 d1 d2 d3 = get_ms d1
   /\ c_get_group d0 d1 d2 d3 = get_group d1 /\ c_get_flag d0 d1 d2 d3 = get_flag d1.
 Proof.
-  intros d0 d1 d2 d3 H. repeat split;
-    [apply leaf_get_pi|apply leaf_get_pty|apply leaf_get_tp|apply leaf_get_ta|apply leaf_get_ms
-    |apply leaf_get_group|apply leaf_get_flag]; exact H.
+  intros d0 d1 d2 d3 H.
+  split; [apply leaf_get_pi|]. split; [apply leaf_get_pty; exact H|]. split; [apply leaf_get_tp; exact H|].
+  split; [apply leaf_get_ta; exact H|]. split; [apply leaf_get_ms; exact H|].
+  split; [apply leaf_get_group; exact H|apply leaf_get_flag; exact H].
 Qed.
 Print Assumptions C01_code_extractors.
 
